@@ -308,18 +308,22 @@ def _bs_from_wire(v):
 # the judge: laws of C03 against one observation
 
 
-def stdlib_roundtrip(data: bytes) -> bytes:
-    """what writing a parsed email.message to a Maildir file and re-serialising
-    the parsed file does to the bytes (Python's email package; used only to
-    NAME the maildir rewriting, never as the reference)"""
+def stdlib_roundtrip(data: bytes, copies: int = 0) -> bytes:
+    """what going through Python's email package does to the bytes: the
+    literal is parsed (mailbox.MaildirMessage) and written to the file by the
+    generator of mailbox.Maildir.add; FETCH re-generates the parsed file
+    (Message.__bytes__).  A copy made from the parsed file goes through the
+    file generator once more.  Used only to NAME the maildir rewriting, never
+    as the reference."""
     import email.generator
     import mailbox
-    m = mailbox.MaildirMessage(data)
-    buf = io.BytesIO()
-    email.generator.BytesGenerator(buf, False, 0).flatten(m)
-    stored = buf.getvalue().replace(b'\n', os.linesep.encode())
-    m2 = mailbox.MaildirMessage(io.BytesIO(stored))
-    return bytes(m2)
+    x = data
+    for _ in range(1 + copies):
+        m = mailbox.MaildirMessage(x if x is data else io.BytesIO(x))
+        buf = io.BytesIO()
+        email.generator.BytesGenerator(buf, False, 0).flatten(m)
+        x = buf.getvalue().replace(b'\n', os.linesep.encode())
+    return bytes(mailbox.MaildirMessage(io.BytesIO(x)))
 
 
 def judge(data: bytes, obs: dict, pred: Pred | None, backend: str, place: str):
@@ -334,12 +338,17 @@ def judge(data: bytes, obs: dict, pred: Pred | None, backend: str, place: str):
     base, p = data, pred
     if s != data:
         sig = None
-        if backend == 'maildir' and place == 'copy' and s == b'\n':
-            sig = 'MaildirCopyLosesContent'
-        elif backend == 'maildir' and s == data.replace(b'\r\n', b'\n'):
+        if backend == 'maildir' and s == data.replace(b'\r\n', b'\n'):
             sig = 'MaildirLineEndings'
         elif backend == 'maildir' and _safe(stdlib_roundtrip, data) == s:
             sig = 'MaildirEmailReflow'
+        elif backend == 'maildir' and place == 'copy' \
+                and _safe(stdlib_roundtrip, data, 1) == s:
+            # a copy built from the parsed file is written by the generator again
+            sig = 'MaildirEmailReflow'
+        elif backend == 'maildir' and place == 'copy' and s == b'\n':
+            # only when the rewriting of the store does not explain it
+            sig = 'MaildirCopyLosesContent'
         elif pred is not None and 'WhitespaceOnlyTail' in pred.devs \
                 and s == data[pred.raw[0]:pred.raw[1]]:
             sig = 'WhitespaceOnlyTail'
